@@ -183,6 +183,11 @@ func (aead *aesCBCAEAD) Open(dst, nonce, ciphertext, additionalData []byte) ([]b
 		return nil, errors.New("message authentication failed")
 	}
 
+	// The ciphertext must be a whole number of blocks (an authentic but malformed message would otherwise make CryptBlocks panic)
+	if len(ciphertext)%aes.BlockSize != 0 {
+		return nil, errors.New("invalid ciphertext size")
+	}
+
 	// Ensure the destination slice has enough capacity
 	size := len(ciphertext)
 	dstLen := len(dst)
